@@ -227,10 +227,34 @@ def qubit_matrix(q, nq):
     return get_sparse_operator(o, n_qubits=nq).toarray() if nq > 0 else np.array([[o.terms.get((), 0)]])
 
 
-def random_hamiltonian(n_orb, seed, spin_conserving=True):
-    """random Hermitian number- and spin-conserving Hamiltonian on n_orb spatial orbitals (alternating ordering)"""
+def random_hamiltonian(n_orb, seed, spin_conserving=True, complex_integrals=False):
+    """random Hermitian number- and spin-conserving Hamiltonian on n_orb spatial orbitals (alternating ordering); complex_integrals: complex one- and two-body coefficients
+    (each term is added with its Hermitian conjugate), pair-exchange terms a_p^dag a_p^dag a_q a_q with complex coefficients included"""
     import random
     rnd = random.Random(seed)
+    if complex_integrals:
+        # a genuine SPIN-FREE Hamiltonian  sum_pq h_pq E_pq + 1/2 sum_pqrs (pq|rs) sum_{sigma,tau} a+_{p sigma} a+_{r tau} a_{s tau} a_{q sigma}  with complex integrals:
+        # h Hermitian, (pq|rs) == (rs|pq) (particle exchange) and (pq|rs)* == (qp|sr) (Hermiticity)
+        import numpy as np
+        rs_ = np.random.default_rng(seed)
+        hm = rs_.normal(size=(n_orb, n_orb)) + 1j * rs_.normal(size=(n_orb, n_orb))
+        hm = (hm + hm.conj().T) / 2
+        g = rs_.normal(size=(n_orb,) * 4) + 1j * rs_.normal(size=(n_orb,) * 4)
+        for _ in range(3):
+            g = (g + g.transpose(2, 3, 0, 1)) / 2
+            g = (g + g.conj().transpose(1, 0, 3, 2)) / 2
+        H = fop((), float(rs_.uniform(-1, 1)))
+        for p in range(n_orb):
+            for q in range(n_orb):
+                for s in (0, 1):
+                    H += fop(((2 * p + s, 1), (2 * q + s, 0)), complex(hm[p, q]))
+                for r in range(n_orb):
+                    for s_ in range(n_orb):
+                        for s1 in (0, 1):
+                            for s2 in (0, 1):
+                                if (2 * p + s1) != (2 * r + s2) and (2 * s_ + s2) != (2 * q + s1):
+                                    H += fop(((2 * p + s1, 1), (2 * r + s2, 1), (2 * s_ + s2, 0), (2 * q + s1, 0)), complex(0.5 * g[p, q, r, s_]))
+        return H
     H = fop((), rnd.uniform(-1, 1))
     for p in range(n_orb):
         for q in range(n_orb):
@@ -349,7 +373,7 @@ def o10(h, st):
 @contract("C03", "O11.combinatorial_hcb.spectrum", level="B", native_samples=lambda st, rnd, tier: [{"seed": rnd.randint(0, 999)}],
           structures=lambda tier: [{"enc": "combinatorial", "n_orb": k, "na": a, "nb": b} for k in (2, 3) for a in range(0, k + 1) for b in range(0, k + 1) if (a, b) != (0, 0)][:: 1 if tier != "quick" else 2]
           + [{"enc": "combinatorial", "n_orb": 4, "na": a, "nb": b} for a, b in ([(1, 2), (2, 1)] if tier == "quick" else [(1, 2), (2, 1), (1, 3), (3, 2), (2, 2), (2, 3)])]
-          + [{"enc": "hcb", "n_orb": k} for k in (2, 3)],
+          + [{"enc": "hcb", "n_orb": k, "complex": cx} for k in (2, 3) for cx in (False, True)],
           targets=[(CB, "combinatorial"), (CB, "recursive_mapping"), (CB, "int_to_tuple"), (HC, "hard_core_boson_operator"), (HC, "boson_to_qubit_mapping")])
 def o11(h, st):
     """bounded (numerical eigenvalues): combinatorial encoding within fixed (n_alpha, n_beta) and hard-core-boson encoding within the paired-electron space
@@ -357,7 +381,7 @@ def o11(h, st):
     import numpy as np
     n_orb = st["n_orb"]
     n = 2 * n_orb
-    H = random_hamiltonian(n_orb, int(h.integer("seed")))
+    H = random_hamiltonian(n_orb, int(h.integer("seed")), complex_integrals=bool(st.get("complex")))
     Mf = fermi_matrix(H, n)
     if st["enc"] == "combinatorial":
         import math
@@ -384,8 +408,9 @@ def o11(h, st):
     idx = [d for d in range(2 ** n) if all(((d >> (2 * k)) & 1) == ((d >> (2 * k + 1)) & 1) for k in range(n_orb))]
     # the HCB Hamiltonian keeps only the pair-conserving part: compare with the projection of H on the paired space
     sub = Mf[np.ix_(idx, idx)]
+    h.check("the encoded operator is Hermitian (as the Hamiltonian is)", float(np.max(np.abs(Mq - Mq.conj().T))) < 1e-10, detail=f"max |Q - Q^dag| = {float(np.max(np.abs(Mq - Mq.conj().T))):.3e}")
     ev_f = np.sort(np.linalg.eigvalsh(sub))
-    ev_q = np.sort(np.linalg.eigvalsh(Mq))
+    ev_q = np.sort(np.linalg.eigvals(Mq).real)          # full matrix (eigvalsh would read one triangle only)
     h.check("same spectrum on the paired-electron space", len(ev_f) == len(ev_q) and float(np.max(np.abs(ev_f - ev_q))) < 1e-8, detail=f"{ev_f} vs {ev_q}")
     h.done()
 
